@@ -2121,6 +2121,8 @@ def install_intrinsics(E):
             # continue on the side where it holds
             E.solver.add(cond)
             if not E.check():
+                st.failed = True
+                st.killed = True    # nothing of this path satisfies the assertion: it ends here
                 raise PathEnd()
             E.model = E.solver.model()
         return None
